@@ -3,6 +3,7 @@ import Tw.Gen.Snap
 import Tw.Proofs.SnapDelta
 import Tw.Proofs.SnapWire
 import Tw.Proofs.SnapRef3
+import Tw.Proofs.SnapFast
 
 /-!
 # C09 — applying a snapshot delta reproduces the target snapshot
@@ -126,6 +127,17 @@ theorem C09_full_refuted_witness : ¬ C09_full := by
     create_panics_witness.1 create_panics_witness.2.1
   rw [create_panics_witness.2.2] at hd
   exact absurd hd (by simp)
+
+/-- The driver runs tree-backed twins (`Tw/Model/SnapFast.lean`) of the two map-heavy model
+functions; they compute exactly the list model, for every input (no hypothesis). -/
+theorem driver_twin_build_eq (its : List (Int × List Int)) :
+    Fast.buildFast its = Fast.buildList its 0 RawSnap.empty := Fast.buildFast_eq its
+
+theorem driver_twin_apply_eq (a : RawSnap) (d : Delta) : Fast.applyDeltaFast a d = applyDelta a d :=
+  Fast.applyDeltaFast_eq a d
+
+theorem driver_twin_read_with_delta_eq (a : Snap) (d : Delta) :
+    Fast.readWithDeltaFast a d = a.readWithDelta d := Fast.readWithDeltaFast_eq a d
 
 -- non-vacuity: a pair over both sides of the signed-key boundary with an item removed, one
 -- changed with wrapping difference, one added, one untouched; pre-agreed size for type 13
